@@ -1,0 +1,1 @@
+//! Verification hooks: sched (see verif/mod.rs).
